@@ -11,7 +11,15 @@ functions crate functions whose contract the obligation proves
 native    True: ground obligation, evaluated natively on the real code
 """
 
+import json
+import os
+import random
+
 ALL = []
+try:
+    TIMINGS = json.load(open(os.path.join(os.path.dirname(os.path.abspath(__file__)), "timings.json")))["seconds"]
+except Exception:
+    TIMINGS = {}
 
 
 def ob(name, props, tier="quick", cls="modular", timeout=240, functions=(), **kw):
@@ -19,6 +27,9 @@ def ob(name, props, tier="quick", cls="modular", timeout=240, functions=(), **kw
              timeout=timeout, functions=list(functions), checks=kw.pop("checks", "nooverflow"),
              features=kw.pop("features", "default"))
     d.update(kw)
+    if name in TIMINGS:
+        d["measured_s"] = TIMINGS[name]
+        d["timeout"] = int(max(300, min(5 * TIMINGS[name], 14400), d["timeout"] if TIMINGS[name] * 3 < d["timeout"] else 0))
     ALL.append(d)
     return d
 
@@ -134,6 +145,12 @@ def select(prop, tier, seed=0):
     props).  Rows that merely serve the property are discharged by their owner's check and are listed
     in the evidence under `rests_on`."""
     rows = [o for o in ALL if o["props"][0] == prop and (tier == "thorough" or o["tier"] == "quick")]
+    if tier == "quick":
+        # seeded sample of the per-gap leaf obligations: 2 per family among those measured <= 160 s
+        rng = random.Random(seed)
+        for fam in sorted({o.get("family") for o in ALL if o.get("family") and o["props"][0] == prop}):
+            cand = [o for o in ALL if o.get("family") == fam and o["props"][0] == prop and o.get("measured_s", 1e9) <= 160]
+            rows += rng.sample(cand, min(2, len(cand)))
     return rows
 
 
